@@ -1541,4 +1541,727 @@ theorem apply_kind0 (fl : Flags) (hg : fl.readyGuarded = true) (s : St) (ev : Ev
     exact this.2
 
 
+
+/-! ### second frame: counters and queue growth -/
+
+def isReg : Cb → Bool
+  | .register _ => true
+  | _ => false
+
+/-- number of registration callbacks in a queue. -/
+def nReg (l : List Cb) : Nat := l.countP isReg
+
+@[simp] theorem nReg_nil : nReg [] = 0 := rfl
+@[simp] theorem nReg_append (l m : List Cb) : nReg (l ++ m) = nReg l + nReg m := by simp [nReg]
+@[simp] theorem nReg_cons (cb : Cb) (l : List Cb) : nReg (cb :: l) = nReg l + (if isReg cb then 1 else 0) := by
+  simp [nReg, List.countP_cons]
+theorem nReg_map_check (l : List (Nat × Nat)) : nReg (l.map (fun (p : Nat × Nat) => Cb.check p.1 p.2)) = 0 := by
+  simp only [nReg, List.countP_eq_zero, List.mem_map]
+  rintro cb ⟨p, _, rfl⟩; simp [isReg]
+theorem nReg_map_notify (l : List (Nat × Nat)) : nReg (l.map (fun (p : Nat × Nat) => Cb.notifyCheck p.1 p.2)) = 0 := by
+  simp only [nReg, List.countP_eq_zero, List.mem_map]
+  rintro cb ⟨p, _, rfl⟩; simp [isReg]
+
+theorem nReg_wake (b : Bool) (x : Nat) : nReg (if b = true then [Cb.wake x] else []) = 0 := by
+  cases b <;> simp [isReg]
+
+/-- `s'` has the same counters as `s`, and its queue is the queue of `s` plus callbacks that are not registrations. -/
+def FrameQ (s s' : St) : Prop :=
+  s'.unfinished = s.unfinished ∧ s'.regResult = s.regResult ∧ s'.registry = s.registry ∧
+  ∃ new, s'.ready = s.ready ++ new ∧ nReg new = 0
+
+theorem FrameQ.refl (s : St) : FrameQ s s := ⟨rfl, rfl, rfl, [], by simp, rfl⟩
+theorem FrameQ.trans {a b c : St} (h1 : FrameQ a b) (h2 : FrameQ b c) : FrameQ a c := by
+  obtain ⟨a1, a2, a3, n1, e1, z1⟩ := h1
+  obtain ⟨b1, b2, b3, n2, e2, z2⟩ := h2
+  exact ⟨b1.trans a1, b2.trans a2, b3.trans a3, n1 ++ n2, by rw [e2, e1, List.append_assoc], by simp [z1, z2]⟩
+
+theorem FrameQ.of_eq {s s' : St} (h1 : s'.unfinished = s.unfinished) (h2 : s'.regResult = s.regResult)
+    (h3 : s'.registry = s.registry) (h4 : s'.ready = s.ready) : FrameQ s s' :=
+  ⟨h1, h2, h3, [], by simp [h4], rfl⟩
+
+theorem FrameQ.put (s : St) (x : Nat) (jb : Job) (cbs : List Cb) (ths : List (TK × Nat)) (h : nReg cbs = 0) :
+    FrameQ s (s.put x jb cbs ths) := ⟨rfl, rfl, rfl, cbs, rfl, h⟩
+
+theorem check_frameQ (fl : Flags) (s : St) (j d : Nat) : FrameQ s (s.check fl j d) := by
+  unfold St.check
+  refine FrameQ.put s j _ _ _ ?_
+  split <;> simp [isReg]
+
+theorem regOne_frameQ (s : St) (j d : Nat) : FrameQ s (regOne s j d) := by
+  have f := regOne_frame s j d
+  exact FrameQ.of_eq f.2.2.2.2.1 f.2.2.2.2.2.2.2.1 f.2.2.2.2.2.2.2.2.2.1 f.2.1
+
+theorem relOne_frameQ (s : St) (j d : Nat) : FrameQ s (relOne s j d) := by
+  unfold relOne
+  split
+  · exact FrameQ.refl s
+  · exact ⟨rfl, rfl, rfl, _, rfl, nReg_map_notify _⟩
+
+theorem acqOne_frameQ (s : St) (x d : Nat) : FrameQ s (acqOne s x d) := by
+  unfold acqOne
+  split
+  · exact FrameQ.put s x _ _ _ rfl
+  · exact (FrameQ.of_eq (s := s) rfl rfl rfl rfl).trans (FrameQ.put _ x _ _ _ rfl)
+
+theorem registerDeps_frameQ (fl : Flags) (s : St) (x k d : Nat) : FrameQ s (St.registerDeps fl s x k d) :=
+  registerDeps_ind (fun s' => FrameQ s s') fl x (d + k)
+    (fun s' d _ h => h.trans (regOne_frameQ s' x d)) (fun s' d _ h => h.trans (check_frameQ fl s' x d)) k d s rfl (FrameQ.refl s)
+
+theorem releaseAll_frameQ (s : St) (x : Nat) (ds : List Nat) : FrameQ s (St.releaseAll s x ds) :=
+  releaseAll_ind (fun s' => FrameQ s s') x (fun _ => True)
+    (fun s' d _ h => h.trans (relOne_frameQ s' x d))
+    (fun s' h => h.trans (FrameQ.put s' x _ _ _ rfl)) ds s (fun _ _ => trivial) (FrameQ.refl s)
+
+theorem acquireAll_frameQ (s : St) (x k d : Nat) : FrameQ s (St.acquireAll s x k d).1 :=
+  (acquireAll_ind (fun s' => FrameQ s s') x (d + k) (fun s' d _ _ h => h.trans (acqOne_frameQ s' x d)) k d s rfl (FrameQ.refl s)).1
+
+theorem finish_frameQ (s : St) (x : Nat) : FrameQ s (s.finish x) := by
+  unfold St.finish
+  simp only
+  split
+  · exact (FrameQ.of_eq (s := s) rfl rfl rfl rfl).trans (FrameQ.put _ x _ _ _ rfl)
+  · exact FrameQ.put _ x _ _ _ rfl
+
+theorem loopHead_frameQ (s : St) (x : Nat) : FrameQ s (s.loopHead x) := by
+  unfold St.loopHead
+  simp only
+  split
+  · exact finish_frameQ s x
+  · split
+    · split <;> exact FrameQ.put _ x _ _ _ rfl
+    · exact FrameQ.put _ x _ _ _ rfl
+
+theorem startJob_frameQ (fl : Flags) (s : St) (x : Nat) : FrameQ s (s.startJob fl x) := by
+  unfold St.startJob
+  simp only
+  refine FrameQ.trans ?_ (loopHead_frameQ _ x)
+  have h1 : FrameQ s (s.put x { (s.jobs x) with state := .waiting, event := false, sleeping := false }) :=
+    FrameQ.put s x _ _ _ rfl
+  have h2 : ∀ s' : St, FrameQ s s' →
+      FrameQ s (if (s'.jobs x).marker then s'.put x { (s'.jobs x) with state := .done } else s') := by
+    intro s' h'
+    split
+    · exact h'.trans (FrameQ.put s' x _ _ _ rfl)
+    · exact h'
+  apply h2
+  split
+  · exact h1.trans (FrameQ.put _ x _ _ _ rfl)
+  · exact (h1.trans (FrameQ.put _ x _ _ _ rfl)).trans (registerDeps_frameQ fl _ x _ _)
+
+theorem enterTail_frameQ (fl : Flags) (s : St) (r : St × Option Nat) (x : Nat) (h : FrameQ s r.1) :
+    FrameQ s (enterTail fl r x) := by
+  obtain ⟨s1, fa⟩ := r
+  unfold enterTail
+  cases fa with
+  | some d => exact (h.trans (check_frameQ fl s1 x d)).trans (FrameQ.put _ x _ _ _ rfl)
+  | none => exact h.trans (FrameQ.put _ x _ _ _ rfl)
+
+theorem abortTail_frameQ (fl : Flags) (s : St) (x : Nat) : FrameQ s (abortTail fl s x) := by
+  unfold abortTail
+  simp only
+  refine FrameQ.trans (FrameQ.put s x _ _ _ ?_) (loopHead_frameQ _ x)
+  exact nReg_wake _ x
+
+theorem codeTail_frameQ (s : St) (x : Nat) : FrameQ s (codeTail s x) := by
+  unfold codeTail
+  refine FrameQ.trans ?_ (finish_frameQ _ x)
+  exact FrameQ.put s x _ _ _ rfl
+
+/-- `resume` at any program counter but `doneHandler`. -/
+theorem resume_frameQ (fl : Flags) (s : St) (x : Nat) (hnd : (s.jobs x).pc ≠ .doneHandler) :
+    FrameQ s (s.resume fl x) := by
+  cases hp : (s.jobs x).pc with
+  | lockEnter => rw [resume_lockEnter fl s x hp]; exact enterTail_frameQ fl s _ x (acquireAll_frameQ s x _ 0)
+  | lockExitAbort => rw [resume_lockExitAbort fl s x hp]; exact (releaseAll_frameQ s x _).trans (abortTail_frameQ fl _ x)
+  | lockExitRun => rw [resume_lockExitRun fl s x hp]; exact FrameQ.put s x _ _ _ rfl
+  | codeWait => rw [resume_codeWait fl s x hp]; exact (releaseAll_frameQ s x _).trans (codeTail_frameQ _ x)
+  | doneHandler => exact absurd hp hnd
+  | _ => rw [resume_other fl s x (by simp [hp, pcKind])]; exact FrameQ.refl s
+
+theorem wake_frameQ (fl : Flags) (s : St) (j : Nat) : FrameQ s (s.runCb fl (.wake j)) := by
+  simp only [St.runCb]
+  split
+  · exact FrameQ.put s j _ _ _ rfl
+  · refine FrameQ.trans ?_ (loopHead_frameQ _ j)
+    exact FrameQ.put s j _ _ _ rfl
+
+theorem waiterRun_frameQ (s : St) : FrameQ s s.waiterRun := by
+  unfold St.waiterRun
+  split <;> exact FrameQ.of_eq rfl rfl rfl rfl
+
+/-- every callback except a registration and the `doneHandler` segment. -/
+theorem runCb_frameQ (fl : Flags) (s : St) (cb : Cb) (hr : isReg cb = false)
+    (hd : ∀ x, cb = .resume x → (s.jobs x).pc ≠ .doneHandler) : FrameQ s (s.runCb fl cb) := by
+  cases cb with
+  | register j => simp [isReg] at hr
+  | start j => exact startJob_frameQ fl s j
+  | wake j => exact wake_frameQ fl s j
+  | resume j => exact resume_frameQ fl s j (hd j rfl)
+  | check j d => exact check_frameQ fl s j d
+  | notifyCheck j d =>
+    rcases notifyCheck_cases fl s j d with e | e <;> rw [e]
+    · exact check_frameQ fl s j d
+    · exact FrameQ.refl s
+  | waiterRun => exact waiterRun_frameQ s
+
+
+
+/-! ### counting the jobs whose coroutine is alive -/
+
+def sumTo (f : Nat → Nat) (n : Nat) : Nat := ((List.range n).map f).sum
+
+theorem sumTo_succ (f : Nat → Nat) (n : Nat) : sumTo f (n + 1) = sumTo f n + f n := by
+  simp [sumTo, List.range_succ]
+
+theorem sumTo_congr (f g : Nat → Nat) (n : Nat) (h : ∀ i, i < n → f i = g i) : sumTo f n = sumTo g n := by
+  induction n with
+  | zero => rfl
+  | succ n ih => rw [sumTo_succ, sumTo_succ, ih (fun i hi => h i (by omega)), h n (by omega)]
+
+theorem sumTo_upd (f g : Nat → Nat) (n x : Nat) (hx : x < n) (h : ∀ i, i ≠ x → f i = g i) :
+    sumTo f n + g x = sumTo g n + f x := by
+  induction n with
+  | zero => omega
+  | succ n ih =>
+    rw [sumTo_succ, sumTo_succ]
+    by_cases hxn : x = n
+    · subst hxn
+      rw [sumTo_congr f g x (fun i hi => h i (by omega))]; omega
+    · have := ih (by omega)
+      rw [h n (fun e => hxn e.symm)]; omega
+
+theorem sumTo_zero (f : Nat → Nat) (n : Nat) (h : sumTo f n = 0) : ∀ i, i < n → f i = 0 := by
+  induction n with
+  | zero => intro i hi; omega
+  | succ n ih =>
+    rw [sumTo_succ] at h
+    intro i hi
+    by_cases hin : i = n
+    · subst hin; omega
+    · exact ih (by omega) i (by omega)
+
+/-- 1 if the coroutine of the record exists and has not returned. -/
+def act (jb : Job) : Nat := if pcKind jb.pc = 0 then 0 else 1
+
+/-- number of submitted jobs whose coroutine exists and has not returned. -/
+def actN (s : St) : Nat := sumTo (fun i => act (s.jobs i)) s.n
+
+/-- `unfinished` equals the number of live coroutines plus a credit `c`. -/
+def CountC (s : St) (c : Int) : Prop := s.unfinished = (actN s : Int) + c
+
+theorem act_pos {jb : Job} (h : pcKind jb.pc ≠ 0) : act jb = 1 := by simp [act, h]
+
+theorem loopHeadJ_kind (jb : Job) : pcKind (loopHeadJ jb).pc = 3 ∨ pcKind (loopHeadJ jb).pc = 2 := by
+  unfold loopHeadJ
+  split
+  · simp [pcKind]
+  · split
+    · split <;> simp [pcKind]
+    · simp [pcKind]
+
+theorem startJob_job_kind (fl : Flags) (s : St) (x : Nat) : pcKind ((s.startJob fl x).jobs x).pc ≠ 0 := by
+  unfold St.startJob
+  simp only
+  rw [loopHead_job]
+  have := loopHeadJ_kind
+  grind
+
+theorem wake_job_kind (fl : Flags) (s : St) (x : Nat) : pcKind ((s.runCb fl (.wake x)).jobs x).pc ≠ 0 := by
+  simp only [St.runCb]
+  split
+  · simp [pcKind]
+  · rw [loopHead_job]
+    have := loopHeadJ_kind
+    grind
+
+theorem resume_job_kind (fl : Flags) (s : St) (x : Nat) (hk : pcKind (s.jobs x).pc = 3)
+    (hnd : (s.jobs x).pc ≠ .doneHandler) : pcKind ((s.resume fl x).jobs x).pc ≠ 0 := by
+  cases hp : (s.jobs x).pc with
+  | lockEnter =>
+    rw [resume_lockEnter fl s x hp]
+    generalize St.acquireAll s x (s.jobs x).deps.length 0 = r
+    obtain ⟨s1, fa⟩ := r
+    unfold enterTail
+    cases fa <;> simp [pcKind]
+  | lockExitAbort =>
+    rw [resume_lockExitAbort fl s x hp]
+    unfold abortTail
+    simp only
+    rw [loopHead_job]
+    have := loopHeadJ_kind
+    grind
+  | lockExitRun => rw [resume_lockExitRun fl s x hp]; simp [pcKind]
+  | codeWait => rw [resume_codeWait fl s x hp]; unfold codeTail; rw [finish_job]; simp [pcKind]
+  | doneHandler => exact absurd hp hnd
+  | _ => simp [hp, pcKind] at hk
+
+theorem head_resume_kind {s : St} {x : Nat} {rest : List Cb} (h : Inv1 s) (hr : s.ready = .resume x :: rest) :
+    pcKind (s.jobs x).pc = 3 := (pop_resume h hr).2
+
+/-- a callback other than the `doneHandler` segment leaves every coroutine alive or dead as it was. -/
+theorem runCb_act (fl : Flags) (s : St) (cb : Cb) (rest : List Cb) (hI : Inv1 s) (hr : s.ready = cb :: rest)
+    (hd : ∀ x, cb = .resume x → (s.jobs x).pc ≠ .doneHandler) (i : Nat) :
+    act ((({ s with ready := rest } : St).runCb fl cb).jobs i) = act (s.jobs i) := by
+  have hF := runCb_frame fl { s with ready := rest } cb
+  by_cases hi : i = target cb
+  · subst hi
+    by_cases hp : plainCb cb
+    · unfold act; rw [plain_pc fl _ cb hp]
+    · cases cb with
+      | start j =>
+        have h1 := head_start_pc hI hr
+        have h2 := startJob_job_kind fl { s with ready := rest } j
+        show act ((St.startJob fl _ j).jobs j) = act (s.jobs j)
+        rw [act_pos h2, act_pos (by rw [h1]; simp [pcKind])]
+      | wake j =>
+        have h1 := head_wake_pc hI hr
+        have h2 := wake_job_kind fl { s with ready := rest } j
+        show act ((St.runCb fl _ (.wake j)).jobs j) = act (s.jobs j)
+        rw [act_pos h2, act_pos (by rw [h1]; simp [pcKind])]
+      | resume j =>
+        have h1 := head_resume_kind hI hr
+        have h2 := resume_job_kind fl { s with ready := rest } j h1 (hd j rfl)
+        show act ((St.resume fl _ j).jobs j) = act (s.jobs j)
+        rw [act_pos h2, act_pos (by rw [h1]; simp)]
+      | _ => simp [plainCb] at hp
+  · rw [hF.2.2.2.2.1 i hi]
+
+theorem actN_congr {s s' : St} (hn : s'.n = s.n) (h : ∀ i, act (s'.jobs i) = act (s.jobs i)) : actN s' = actN s := by
+  unfold actN; rw [hn]; exact sumTo_congr _ _ _ (fun i _ => h i)
+
+/-- the `doneHandler` segment: one coroutine returns and the counter goes down by one. -/
+theorem doneStep_count (s : St) (x : Nat) (hx : x < s.n) (hp : (s.jobs x).pc = .doneHandler) (c : Int)
+    (h : CountC s c) : CountC (doneStep s x) c := by
+  have e := sumTo_upd (fun i => act ((doneStep s x).jobs i)) (fun i => act (s.jobs i)) s.n x hx
+    (fun i hi => by simp [doneStep, upd_ne _ _ hi])
+  have a1 : act ((doneStep s x).jobs x) = 0 := by simp [doneStep, act, pcKind]
+  have a2 : act (s.jobs x) = 1 := by simp [act, hp, pcKind]
+  have hn : (doneStep s x).n = s.n := rfl
+  have hu : (doneStep s x).unfinished = s.unfinished - 1 := rfl
+  unfold CountC actN at h ⊢
+  rw [hn, hu, h]
+  simp only [a1, a2] at e
+  omega
+
+theorem doneStep_frameQ' (s : St) (x : Nat) :
+    (doneStep s x).regResult = s.regResult ∧ (doneStep s x).registry = s.registry ∧
+    ∃ new, (doneStep s x).ready = s.ready ++ new ∧ nReg new = 0 := by
+  refine ⟨rfl, rfl, (if s.waiter = WS.sleeping then [Cb.waiterRun] else []) ++
+      (s.jobDeps x).map (fun (p : Nat × Nat) => Cb.check p.1 p.2), by simp [doneStep], ?_⟩
+  simp only [nReg_append, nReg_map_check]
+  split <;> simp [isReg]
+
+/-- effect of any callback that is not a registration on the counters and the queue. -/
+theorem runCb_count (fl : Flags) (s : St) (cb : Cb) (rest : List Cb) (hI : Inv1 s) (hr : s.ready = cb :: rest)
+    (hreg : isReg cb = false) (c : Int) (h : CountC s c) :
+    CountC (({ s with ready := rest } : St).runCb fl cb) c ∧
+    (({ s with ready := rest } : St).runCb fl cb).regResult = s.regResult ∧
+    (({ s with ready := rest } : St).runCb fl cb).registry = s.registry ∧
+    ∃ new, (({ s with ready := rest } : St).runCb fl cb).ready = rest ++ new ∧ nReg new = 0 := by
+  by_cases hd : ∀ x, cb = .resume x → (s.jobs x).pc ≠ .doneHandler
+  · have hQ := runCb_frameQ fl { s with ready := rest } cb hreg hd
+    have hA := runCb_act fl s cb rest hI hr hd
+    have hn := (runCb_frame fl { s with ready := rest } cb).1
+    refine ⟨?_, hQ.2.1, hQ.2.2.1, hQ.2.2.2⟩
+    unfold CountC at h ⊢
+    rw [actN_congr hn hA, hQ.1]; exact h
+  · have : ∃ x, cb = .resume x ∧ (s.jobs x).pc = .doneHandler := by
+      apply Classical.byContradiction
+      intro hne
+      apply hd
+      intro x hx hp
+      exact hne ⟨x, hx, hp⟩
+    obtain ⟨x, rfl, hp⟩ := this
+    have hx : x < s.n := (pop_resume hI hr).1.2.2.2.2
+    simp only [St.runCb]
+    rw [resume_doneHandler fl ({ s with ready := rest } : St) x hp]
+    have hq := doneStep_frameQ' { s with ready := rest } x
+    exact ⟨doneStep_count { s with ready := rest } x hx hp c h, hq.1, hq.2.1, hq.2.2⟩
+
+
+
+/-! ### the counter `unfinished`: between events, and inside `submit` -/
+
+theorem register_effect (fl : Flags) (hf : fl.resubmitRegisters = true) (s : St) (j : Nat) :
+    ((s.register fl j).regResult = some none ∧ (s.register fl j).unfinished = s.unfinished + 1) ∨
+    (∃ o, (s.register fl j).regResult = some (some o) ∧ (s.register fl j).unfinished = s.unfinished) := by
+  unfold St.register
+  simp only [hf, if_true]
+  split
+  · split
+    · exact Or.inl ⟨rfl, rfl⟩
+    · exact Or.inr ⟨_, rfl, rfl⟩
+  · exact Or.inl ⟨rfl, rfl⟩
+
+/-- inside `submit`, before the registration ran: `m` callbacks are ahead of it. -/
+def PhA (s : St) (j m : Nat) : Prop :=
+  ∃ r extra, s.ready = r ++ Cb.register j :: extra ∧ r.length = m ∧ nReg r = 0 ∧ nReg extra = 0 ∧
+    s.regResult = none ∧ CountC s 0
+
+/-- inside `submit`, after the registration ran: the new job is counted in advance iff it will be scheduled. -/
+def PhB (s : St) : Prop :=
+  nReg s.ready = 0 ∧ ((s.regResult = some none ∧ CountC s 1) ∨ (∃ o, s.regResult = some (some o) ∧ CountC s 0))
+
+theorem isReg_of_nReg {cb : Cb} {l : List Cb} (h : nReg (cb :: l) = 0) : isReg cb = false ∧ nReg l = 0 := by
+  rw [nReg_cons] at h
+  cases hc : isReg cb <;> simp [hc] at h ⊢ <;> omega
+
+theorem stepA_succ (fl : Flags) (s : St) (j m : Nat) (hI : Inv1 s) (h : PhA s j (m + 1)) : PhA (s.step fl) j m := by
+  obtain ⟨r, extra, hr, hl, hz, hze, hrr, hc⟩ := h
+  cases r with
+  | nil => simp at hl
+  | cons cb r' =>
+    have hcb := isReg_of_nReg hz
+    have hr' : s.ready = cb :: (r' ++ Cb.register j :: extra) := by rw [hr]; rfl
+    have hq := runCb_count fl s cb _ hI hr' hcb.1 0 hc
+    unfold St.step
+    rw [hr']
+    simp only
+    obtain ⟨q1, q2, _, new, q4, q5⟩ := hq
+    refine ⟨r', extra ++ new, ?_, by simpa using hl, hcb.2, by simp [hze, q5], by rw [q2]; exact hrr, q1⟩
+    rw [q4]; simp
+
+theorem stepA_zero (fl : Flags) (hf : fl.resubmitRegisters = true) (s : St) (j : Nat) (h : PhA s j 0) :
+    PhB (s.step fl) := by
+  obtain ⟨r, extra, hr, hl, hz, hze, hrr, hc⟩ := h
+  have : r = [] := List.eq_nil_of_length_eq_zero hl
+  subst this
+  simp only [List.nil_append] at hr
+  unfold St.step
+  rw [hr]
+  simp only [St.runCb]
+  have f := register_jobs fl ({ s with ready := extra } : St) j
+  have e := register_effect fl hf ({ s with ready := extra } : St) j
+  refine ⟨by rw [f.2.1]; exact hze, ?_⟩
+  have hact : actN (St.register fl ({ s with ready := extra } : St) j) = actN s :=
+    actN_congr f.2.2.2.1 (fun i => by rw [f.1])
+  unfold CountC at hc ⊢
+  rcases e with ⟨e1, e2⟩ | ⟨o, e1, e2⟩
+  · refine Or.inl ⟨e1, ?_⟩
+    rw [hact, e2]; simp only; omega
+  · refine Or.inr ⟨o, e1, ?_⟩
+    rw [hact, e2]; simp only; omega
+
+theorem stepB (fl : Flags) (s : St) (hI : Inv1 s) (h : PhB s) : PhB (s.step fl) := by
+  obtain ⟨hz, hc⟩ := h
+  unfold St.step
+  split
+  · exact ⟨hz, hc⟩
+  · rename_i cb rest hr
+    rw [hr] at hz
+    have hcb := isReg_of_nReg hz
+    rcases hc with ⟨e, hc⟩ | ⟨o, e, hc⟩
+    · obtain ⟨q1, q2, _, new, q4, q5⟩ := runCb_count fl s cb rest hI hr hcb.1 _ hc
+      exact ⟨by rw [q4]; simp [hcb.2, q5], Or.inl ⟨by rw [q2]; exact e, q1⟩⟩
+    · obtain ⟨q1, q2, _, new, q4, q5⟩ := runCb_count fl s cb rest hI hr hcb.1 _ hc
+      exact ⟨by rw [q4]; simp [hcb.2, q5], Or.inr ⟨o, by rw [q2]; exact e, q1⟩⟩
+
+/-- the registration is reached after exactly the callbacks queued before it. -/
+theorem steps_phaseA (fl : Flags) (hg : fl.readyGuarded = true) (j : Nat) :
+    ∀ m k s, InvA s → PhA s j k → m ≤ k → InvA (St.steps fl s m) ∧ PhA (St.steps fl s m) j (k - m) := by
+  intro m
+  induction m with
+  | zero => intro k s hA hP _; exact ⟨hA, hP⟩
+  | succ m ih =>
+    intro k s hA hP hm
+    obtain ⟨k', rfl⟩ : ∃ k', k = k' + 1 := ⟨k - 1, by omega⟩
+    have := ih k' (s.step fl) (step_invA fl hg s hA) (stepA_succ fl s j k' hA.ctl hP) (by omega)
+    simpa [St.steps, Nat.add_sub_add_right] using this
+
+theorem steps_phaseB (fl : Flags) (hg : fl.readyGuarded = true) (hf : fl.resubmitRegisters = true) (j : Nat)
+    (k : Nat) (s : St) (hA : InvA s) (hP : PhA s j k) : PhB (St.steps fl s (k + 1)) := by
+  have h1 := steps_phaseA fl hg j k k s hA hP (Nat.le_refl _)
+  rw [Nat.sub_self] at h1
+  have : St.steps fl s (k + 1) = (St.steps fl s k).step fl := by
+    clear h1 hP hA
+    induction k generalizing s with
+    | zero => rfl
+    | succ k ih => simp only [St.steps]; exact ih _
+  rw [this]
+  exact stepA_zero fl hf _ j h1.2
+
+/-- second layer: no registration is pending between events and `unfinished` counts the live coroutines. -/
+structure InvB (s : St) : Prop where
+  noreg : nReg s.ready = 0
+  count : CountC s 0
+
+theorem submitPre_phaseA (s : St) (ident : Nat) (deps : List Origin) (code : Nat) (marker : Bool) (h : InvB s) :
+    PhA (submitPre s ident deps code marker) s.n s.ready.length := by
+  refine ⟨s.ready, [], rfl, rfl, h.noreg, rfl, rfl, ?_⟩
+  have hc := h.count
+  unfold CountC actN at hc ⊢
+  have e1 : (submitPre s ident deps code marker).n = s.n + 1 := rfl
+  have e2 : (submitPre s ident deps code marker).unfinished = s.unfinished := rfl
+  rw [e1, e2, sumTo_succ, sumTo_congr _ (fun i => act (s.jobs i)) s.n
+    (fun i hi => by rw [submitPre_jobs_ne _ _ _ _ _ _ (by omega)])]
+  have : act ((submitPre s ident deps code marker).jobs s.n) = 0 := by simp [submitPre, act, pcKind]
+  rw [this, hc]; simp
+
+theorem submitPost_invB (s2 : St) (j : Nat) (hpc : (s2.jobs j).pc = .none) (hn : j < s2.n) (h : PhB s2) :
+    InvB (submitPost s2 j) := by
+  obtain ⟨hz, hc⟩ := h
+  unfold submitPost
+  rcases hc with ⟨e, hc⟩ | ⟨o, e, hc⟩
+  · rw [e]
+    simp only
+    refine ⟨by simp [hz, isReg], ?_⟩
+    have key : ∀ s3 : St, s3.n = s2.n → s3.unfinished = s2.unfinished →
+        s3.jobs = upd s2.jobs j { (s2.jobs j) with pc := .created } → CountC s3 0 := by
+      intro s3 e1 e2 e3
+      have es := sumTo_upd (fun i => act (s3.jobs i)) (fun i => act (s2.jobs i)) s2.n j hn
+        (fun i hi => by simp [e3, upd_ne _ _ hi])
+      have a1 : act (s3.jobs j) = 1 := by simp [e3, act, pcKind]
+      have a2 : act (s2.jobs j) = 0 := by simp [act, hpc, pcKind]
+      unfold CountC actN at hc ⊢
+      rw [a1, a2] at es
+      rw [e1, e2, hc]; omega
+    exact key _ rfl rfl rfl
+  · rw [e]
+    exact ⟨hz, hc⟩
+
+theorem apply_invB (fl : Flags) (hg : fl.readyGuarded = true) (hf : fl.resubmitRegisters = true) (s : St) (ev : Ev)
+    (hA : InvA s) (h : InvB s) : InvB (s.apply fl ev) := by
+  cases ev with
+  | step =>
+    simp only [St.apply]
+    unfold St.step
+    split
+    · exact h
+    · rename_i cb rest hr
+      have hz := h.noreg
+      rw [hr] at hz
+      have hcb := isReg_of_nReg hz
+      obtain ⟨q1, _, _, new, q4, q5⟩ := runCb_count fl s cb rest hA.ctl hr hcb.1 0 h.count
+      exact ⟨by rw [q4]; simp [hcb.2, q5], q1⟩
+  | wait => exact ⟨by simp [St.apply, h.noreg, isReg], h.count⟩
+  | deliver k =>
+    simp only [St.apply]
+    split
+    · exact ⟨by simp [h.noreg, isReg], h.count⟩
+    · exact h
+  | submit ident deps code marker =>
+    rw [apply_submit]
+    have h0 := submitPre_invA s ident deps code marker hA
+    have hB := steps_phaseB fl hg hf s.n _ _ h0 (submitPre_phaseA s ident deps code marker h)
+    have h1 := steps_invA fl hg s.n (s.ready.length + 1) _ ⟨h0, by simp [submitPre]⟩
+    exact submitPost_invB _ s.n h1.2 (by rw [steps_n]; simp [submitPre]) hB
+
+theorem init_invB (totals : List Nat) : InvB (St.init totals) :=
+  ⟨rfl, by simp [CountC, actN, sumTo, St.init]⟩
+
+theorem reachable_invB {fl : Flags} (hg : fl.readyGuarded = true) (hf : fl.resubmitRegisters = true)
+    {totals : List Nat} {s : St} (h : Reachable fl totals s) : InvB s := by
+  induction h with
+  | init => exact init_invB totals
+  | next hr _ ih => exact apply_invB fl hg hf _ _ (reachable_invA hg hr) ih
+
+
+
+/-! ### micro-states (inside `submit`) and the waiter -/
+
+/-- states in which a callback may run: the reachable states and the intermediate states of a `submit` event. -/
+inductive MReach (fl : Flags) (totals : List Nat) : St → Prop
+  | atEvent {s : St} : Reachable fl totals s → MReach fl totals s
+  | inSubmit {s : St} (ident : Nat) (deps : List Origin) (code : Nat) (marker : Bool) (k : Nat) :
+      Reachable fl totals s → EvOK s (.submit ident deps code marker) → k ≤ s.ready.length + 1 →
+      MReach fl totals (St.steps fl (submitPre s ident deps code marker) k)
+
+theorem pcKind_zero {pc : PC} : pcKind pc = 0 ↔ pc = .none ∨ ∃ r, pc = .finished r := by
+  cases pc <;> simp [pcKind]
+
+/-- every scheduled job has returned. -/
+def AllFinal (s : St) : Prop := ∀ j, j < s.n → (s.jobs j).pc = .none ∨ ∃ r, (s.jobs j).pc = .finished r
+
+theorem actN_zero_iff (s : St) : actN s = 0 ↔ AllFinal s := by
+  constructor
+  · intro h j hj
+    have := sumTo_zero _ _ h j hj
+    simp only [act] at this
+    apply pcKind_zero.1
+    grind
+  · intro h
+    unfold actN
+    have : sumTo (fun i => act (s.jobs i)) s.n = sumTo (fun _ => 0) s.n :=
+      sumTo_congr _ _ _ (fun i hi => by simp [act, pcKind_zero.2 (h i hi)])
+    rw [this]
+    clear this h
+    induction s.n with
+    | zero => rfl
+    | succ n ih => rw [sumTo_succ, ih]
+
+theorem micro_count {fl : Flags} (hg : fl.readyGuarded = true) (hf : fl.resubmitRegisters = true)
+    {totals : List Nat} {s : St} (h : MReach fl totals s) : InvA s ∧ ∃ c : Int, 0 ≤ c ∧ CountC s c := by
+  cases h with
+  | atEvent hr => exact ⟨reachable_invA hg hr, 0, Int.le_refl _, (reachable_invB hg hf hr).count⟩
+  | @inSubmit s0 ident deps code marker k hr _ hk =>
+    have hA := reachable_invA hg hr
+    have hB := reachable_invB hg hf hr
+    have h0 := submitPre_invA s0 ident deps code marker hA
+    have hP := submitPre_phaseA s0 ident deps code marker hB
+    refine ⟨(steps_invA fl hg s0.n k _ ⟨h0, by simp [submitPre]⟩).1, ?_⟩
+    by_cases hk' : k ≤ s0.ready.length
+    · obtain ⟨_, _, _, _, _, _, _, hc⟩ := (steps_phaseA fl hg s0.n k _ _ h0 hP hk').2
+      exact ⟨0, Int.le_refl _, hc⟩
+    · have : k = s0.ready.length + 1 := by omega
+      subst this
+      obtain ⟨_, hc⟩ := steps_phaseB fl hg hf s0.n _ _ h0 hP
+      rcases hc with ⟨_, hc⟩ | ⟨_, _, hc⟩
+      · exact ⟨1, by omega, hc⟩
+      · exact ⟨0, Int.le_refl _, hc⟩
+
+theorem waiterRun_cases (s : St) :
+    (s.unfinished = 0 ∧ s.waiterRun.waiter = (if s.failed.isEmpty then WS.returned else WS.raised)) ∨
+    (s.unfinished ≠ 0 ∧ s.waiterRun.waiter = .sleeping) := by
+  unfold St.waiterRun
+  split
+  · rename_i h; exact Or.inl ⟨h, rfl⟩
+  · rename_i h; exact Or.inr ⟨h, rfl⟩
+
+/-- sum of indicators = length of the filtered range. -/
+def pcLive : PC → Bool
+  | .none => false
+  | .finished _ => false
+  | _ => true
+
+theorem act_eq_live (jb : Job) : act jb = if pcLive jb.pc then 1 else 0 := by
+  unfold act; cases jb.pc <;> simp [pcKind, pcLive]
+
+theorem sumTo_filter (p : Nat → Bool) (n : Nat) :
+    sumTo (fun i => if p i then 1 else 0) n = ((List.range n).filter p).length := by
+  induction n with
+  | zero => rfl
+  | succ n ih =>
+    rw [sumTo_succ, ih, List.range_succ, List.filter_append, List.length_append]
+    cases hp : p n <;> simp [hp]
+
+theorem actN_eq_filter (s : St) : actN s = ((List.range s.n).filter (fun j => pcLive (s.jobs j).pc)).length := by
+  unfold actN
+  rw [← sumTo_filter]
+  exact sumTo_congr _ _ _ (fun i _ => act_eq_live _)
+
+/-! ### stability over any continuation -/
+
+theorem stable_foldl (fl : Flags) (hg : fl.readyGuarded = true) (j : Nat) (r : JS) :
+    ∀ (evs : List Ev) (s : St), InvA s → (s.jobs j).pc = .finished r →
+      InvA (evs.foldl (St.apply fl) s) ∧ ((evs.foldl (St.apply fl) s).jobs j).pc = .finished r := by
+  intro evs
+  induction evs with
+  | nil => intro s hA hp; exact ⟨hA, hp⟩
+  | cons ev evs ih =>
+    intro s hA hp
+    have hj : j < s.n := by
+      apply Classical.byContradiction
+      intro hn
+      have := hA.blank j (by omega)
+      rw [hp] at this; cases this
+    have h1 := apply_kind0 fl hg s ev hA j hj (by rw [hp]; rfl)
+    exact ih (s.apply fl ev) (apply_invA fl hg s ev hA) (by rw [h1]; exact hp)
+
+theorem apply_n_le (fl : Flags) (s : St) (ev : Ev) : s.n ≤ (s.apply fl ev).n := by
+  cases ev with
+  | step => simp only [St.apply]; rw [step_n]; exact Nat.le_refl _
+  | wait => exact Nat.le_refl _
+  | deliver k => simp only [St.apply]; split <;> exact Nat.le_refl _
+  | submit ident deps code marker =>
+    rw [apply_submit, submitPost_n, steps_n]; simp [submitPre]
+
+
+
+/-! ### consequences of the record-local invariant for a returned coroutine -/
+
+theorem jlocal_final {jb : Job} {r : JS} (h : JLocal jb) (hp : jb.pc = .finished r) :
+    (r = .done ∨ r = .error) ∧ jb.state = r := by
+  have h1 := h.1 (by rw [hp]; rfl)
+  have h2 := h.2.1 r hp
+  rw [h2] at h1
+  refine ⟨?_, h2⟩
+  cases r <;> simp [JS.finished] at h1 ⊢
+
+theorem jlocal_done_iff {jb : Job} {r : JS} (h : JLocal jb) (hp : jb.pc = .finished r) :
+    r = .done ↔ (jb.marker = true ∨ (jb.launches = 1 ∧ jb.code = 0)) := by
+  have hs := (jlocal_final h hp).2
+  obtain ⟨_, _, _, _, _, h6, h7, h8, _⟩ := h
+  constructor
+  · intro hr; exact h6 (by rw [hs, hr])
+  · rintro (hm | ⟨hl, hc⟩)
+    · have := (h7 hm).2
+      rw [hp] at this
+      rcases this with h | h | ⟨h, _⟩
+      · cases h
+      · cases h
+      · rw [← hs]; exact h
+    · have := h8 hl (by rw [hp]; rfl)
+      rw [← hs, this, hc]; rfl
+
+theorem jlocal_error_iff {jb : Job} {r : JS} (h : JLocal jb) (hp : jb.pc = .finished r) :
+    r = .error ↔ (jb.marker = false ∧ ((jb.launches = 1 ∧ jb.code ≠ 0) ∨ (jb.launches = 0 ∧ jb.failedDep = true))) := by
+  have hf := jlocal_final h hp
+  have hd := jlocal_done_iff h hp
+  have hl := h.2.2.2.2.1
+  have h9 := h.2.2.2.2.2.2.2.2
+  have h7 := h.2.2.2.2.2.2.1
+  constructor
+  · intro hr
+    have hnd : ¬ (jb.marker = true ∨ (jb.launches = 1 ∧ jb.code = 0)) := by
+      intro hx; have := hd.2 hx; rw [hr] at this; cases this
+    refine ⟨by cases hm : jb.marker <;> simp_all, ?_⟩
+    by_cases h1 : jb.launches = 1
+    · exact Or.inl ⟨h1, fun hc => hnd (Or.inr ⟨h1, hc⟩)⟩
+    · have h0 : jb.launches = 0 := by omega
+      exact Or.inr ⟨h0, h9 (by rw [hf.2, hr]) h0⟩
+  · rintro ⟨hm, hx⟩
+    rcases hf.1 with hr | hr
+    · exfalso
+      rcases hd.1 hr with hm' | ⟨h1, hc⟩
+      · rw [hm] at hm'; cases hm'
+      · rcases hx with ⟨_, hc'⟩ | ⟨h0, _⟩
+        · exact hc' hc
+        · omega
+    · exact hr
+
+theorem jlocal_marker {jb : Job} (h : JLocal jb) (hm : jb.marker = true) : jb.launches = 0 :=
+  (h.2.2.2.2.2.2.1 hm).1
+
+
+
+/-! ### concrete reachable states (for `example`s) -/
+
+def evOKb (s : St) : Ev → Bool
+  | .submit _ deps _ _ => deps.all (fun o => match o with
+      | .job d => decide (d < s.n)
+      | .tok t c => decide (t < s.ntok) && decide (0 < c))
+  | _ => true
+
+theorem evOKb_sound (s : St) (ev : Ev) (h : evOKb s ev = true) : EvOK s ev := by
+  cases ev with
+  | submit ident deps code marker =>
+    simp only [evOKb, List.all_eq_true] at h
+    intro o ho
+    have := h o ho
+    cases o <;> simp_all
+  | _ => trivial
+
+/-- run a list of events, checking well-formedness on the way. -/
+def runOK (fl : Flags) : St → List Ev → Bool
+  | _, [] => true
+  | s, ev :: evs => evOKb s ev && runOK fl (s.apply fl ev) evs
+
+theorem reachable_foldl {fl : Flags} {totals : List Nat} (evs : List Ev) :
+    ∀ s, Reachable fl totals s → runOK fl s evs = true → Reachable fl totals (evs.foldl (St.apply fl) s) := by
+  induction evs with
+  | nil => intro s h _; exact h
+  | cons ev evs ih =>
+    intro s h hok
+    simp only [runOK, Bool.and_eq_true] at hok
+    exact ih _ (.next h (evOKb_sound s ev hok.1)) hok.2
+
+/-- the state after a list of events from `init`. -/
+def runEvs (fl : Flags) (totals : List Nat) (evs : List Ev) : St := evs.foldl (St.apply fl) (St.init totals)
+
+theorem reachable_runEvs {fl : Flags} {totals : List Nat} (evs : List Ev)
+    (h : runOK fl (St.init totals) evs = true) : Reachable fl totals (runEvs fl totals evs) :=
+  reachable_foldl evs _ .init h
+
+
 end XpmVerif.SchedFinal
